@@ -23,7 +23,7 @@ def sym(ctx, cfg):
     sizes = cfg.get("sizes") or [N] * nfiles
     dss, syms = [], []
     for fid in range(nfiles):
-        ds, s = brewlib.make_dataset(ctx, D, sizes[fid], fid, keycols, cfg.get("labels", "pm1"))
+        ds, s = brewlib.make_dataset(ctx, D, sizes[fid], fid, keycols, cfg.get("labels", "pm1"), filecol=bool(cfg.get("filecol")))
         dss.append(ds)
         syms.append(s)
         if cfg.get("fixed_labels"):
@@ -372,6 +372,7 @@ def harnesses(tier):
         add("n=3,folds=2,2 files", dict(n=3, folds=2, files=2, sizes=[3, 2]))
         add("n=4,folds=2,cap,rng,fixed labels", dict(n=4, folds=2, cap=True, rng=True, fixed_labels=True))
         add("n=4,folds=2,one key column,fixed labels", dict(n=4, folds=2, keycols=1, fixed_labels=True))
+        add("n=4,folds=2,file-name column in the spectrum key,fixed labels", dict(n=4, folds=2, filecol=True, fixed_labels=True))
         add("n=4+2,folds=2,2 files,cap,fixed labels", dict(n=4, folds=2, files=2, sizes=[4, 2], cap=True, fixed_labels=True))
         add("n=4,folds=2,prediction chunk symbolic,fixed labels", dict(n=4, folds=2, sym_chunks="prediction", fixed_labels=True))
         add("n=4,folds=2,read chunk symbolic,task order,fixed labels", dict(n=4, folds=2, sym_chunks="read", sched=True, fixed_labels=True))
@@ -508,10 +509,21 @@ def real_brew(cfg, inp):
     log = {}
     with tempfile.TemporaryDirectory(prefix="verif_c02_") as d:
         dss, keys = [], []
+        copies = 25 if cfg.get("filecol") and cfg.get("_failed") else 1
+        if copies > 1:
+            inp = dict(inp, files=[dict(f) for f in inp["files"]])
         for fid, rows in enumerate(inp["files"]):
             scan, mass = realize_keys(rows, inp["hashes"][fid])
+            if copies > 1:
+                # a counterexample that hangs on the ADDRESSES of key objects shows only with some probability per
+                # spectrum: it is replayed on 25 shifted copies of the solver's table (same structure, other scan numbers)
+                scan = [int(x) + 1000 * c for c in range(copies) for x in scan]
+                mass = [x for c in range(copies) for x in mass]
+                for k in ("labels", "f1"):
+                    inp["files"][fid][k] = list(rows[k]) * copies
+                rows = inp["files"][fid]
             rows = dict(rows, scan=scan, mass=mass)
-            p, df = brewlib.real_dataset(None, d, fid, rows, cfg.get("labels", "pm1"))
+            p, df = brewlib.real_dataset(None, d, fid, rows, cfg.get("labels", "pm1"), filecol=bool(cfg.get("filecol")))
             keys.append(list(zip(scan, mass)) if rows.get("keycols", 2) >= 2 else [(s,) for s in scan])
             try:
                 dss.append(mokapot.read_pin(p, max_workers=1)[0])
